@@ -44,8 +44,8 @@ CHECKS = {
         note=TB + "PARTIAL: TransactionBody, outputs, values and Plutus data have hand-written codecs and are opaque leaves of the "
                   "typed model — for them the theorem says their CBOR item survives, and their own restoration is judged on the "
                   "implementation; the C extension and the interpreter hash seed cannot be expressed in a model of the Python "
-                  "code and are exercised on the implementation only (since repair 128fdec both back ends pass). Recorded "
-                  "defects KF-C03-inline-datum-chunked, KF-C03-datum-empty-list, KF-C03-inline-datum-definite-list."),
+                  "code and are exercised on the implementation only (since repair 128fdec both back ends pass). All recorded C03 "
+                  "defects have been repaired in /repo."),
     "C04": dict(
         text="Lean theorems over the model of DictCBORSerializable's canonical sort and of Asset/MultiAsset/Value "
              "serialization: encoded bytes are a function of content (any two insertion orders / stored zeros / empty "
